@@ -120,6 +120,8 @@ Final ==
         /\ \A x \in 1..Len(bs.matches) :
               LET m == bs.matches[x] IN BiSame(m[1], Bi(Sub(P, m[2], m[2] + m[3]))) /\ m[1].size > 0
 \* the fast MEM characterisation used for long patterns in trace validation is the definition
+\* a minimum length beyond the pattern length leaves nothing (the verdict for l >= 2^32 in the trace spec)
+BigMinLenLemma == mode = "done" => Smems(P, q.i, Len(P) + 1, t) = {} /\ MemsMin(P, Len(P) + 1, t) = {}
 MemsFastLemma == mode = "done" => MemsFast(P, t) = Mems(P, t)
 Progress == [][(mode = "fwd" /\ mode' = "fwd" => fs'.stop \/ fs'.x = fs.x + 1)
                /\ (mode = "bwd" /\ mode' = "bwd" => bs'.k = bs.k - 1)]_vars
